@@ -87,22 +87,26 @@ def adjustBound (len : Nat) (dflt : Nat) : Option Int → Nat
     if v < 0 then (if v + (len : Int) < 0 then 0 else (v + (len : Int)).toNat)
     else if v ≥ (len : Int) then len else v.toNat
 
+/-- a negative integer index counts from the end -/
+def wrapIndex (len : Nat) (i : Int) : Int := if i < 0 then i + (len : Int) else i
+
+/-- the step of a slice, `None` = 1 -/
+def sliceStep : Option Int → Int
+  | none => 1
+  | some s => s
+
 /-- `h5py._selector`: one index argument against an axis of extent `len` -/
 def selectAxis (len : Nat) : Ix → Except Err AxisSel
   | .int i =>
-    let a : Int := if i < 0 then i + (len : Int) else i
-    if 0 ≤ a ∧ a < (len : Int) then .ok ⟨a.toNat, 1, 1, true⟩ else .error .indexError
+    if 0 ≤ wrapIndex len i ∧ wrapIndex len i < (len : Int) then .ok ⟨(wrapIndex len i).toNat, 1, 1, true⟩
+    else .error .indexError
   | .slice start stop step =>
-    let st : Int := match step with
-      | none => 1
-      | some s => s
     -- step 0: `slice.indices` raises ValueError; step < 0: h5py raises ValueError("Step must be >= 1")
-    if st < 1 then .error .valueError
-    else
-      let lo := adjustBound len 0 start
-      let hi := adjustBound len len stop
-      if hi < lo then .ok ⟨0, 1, 0, false⟩
-      else .ok ⟨lo, st.toNat, (if hi = lo then 0 else (hi - lo - 1) / st.toNat + 1), false⟩
+    if sliceStep step < 1 then .error .valueError
+    else if adjustBound len len stop < adjustBound len 0 start then .ok ⟨0, 1, 0, false⟩
+    else .ok ⟨adjustBound len 0 start, (sliceStep step).toNat,
+              (if adjustBound len len stop = adjustBound len 0 start then 0
+               else (adjustBound len len stop - adjustBound len 0 start - 1) / (sliceStep step).toNat + 1), false⟩
 
 /-- index arguments are consumed left to right; missing trailing ones are full slices; a surplus argument is a
 ValueError ("n indexing arguments for m dimensions") raised when it is reached -/
@@ -266,6 +270,18 @@ def writeDirect (A : DArr) (D : NdArray Elem) : Except Err DArr :=
 def contiguous (D : NdArray Elem) : NdArray Elem :=
   if D.shape = [] then ⟨[1], fun _ => D.get []⟩ else D
 
+/-- `if dtype is None: dtype = <default>` -/
+def chooseDType (dtype : Option DType) (dflt : DType) : DType :=
+  match dtype with
+  | none => dflt
+  | some t => t
+
+/-- `if shape is not None: if shape != data.shape: raise ValueError` -/
+def shapeAgrees (shape : Option (List Nat)) (dshape : List Nat) : Bool :=
+  match shape with
+  | none => true
+  | some sh => decide (sh = dshape)
+
 /-- `Block.create_data_array` (block.py:233-259), name handling left out.  `data` carries the numpy dtype of the
 contiguous data (`.string` = text data, numpy kind U/O).  `compr` is the already resolved dataset filter flag. -/
 def createDataArray (dtype : Option DType) (shape : Option (List Nat)) (data : Option (DType × NdArray Elem))
@@ -274,25 +290,15 @@ def createDataArray (dtype : Option DType) (shape : Option (List Nat)) (data : O
   | none =>
     match shape with
     | none => .error .valueError
-    | some sh =>
-      let dt := match dtype with
-        | none => DType.float64
-        | some d => d
-      .ok ⟨dt, compr, ⟨sh, fun _ => dt.fill⟩⟩
+    | some sh => .ok ⟨chooseDType dtype .float64, compr, ⟨sh, fun _ => (chooseDType dtype .float64).fill⟩⟩
   | some (ddt, d0) =>
-    let d := contiguous d0
-    let dt := match dtype with
-      | none => ddt
-      | some t => t
-    let shOk := match shape with
-      | none => true
-      | some sh => decide (sh = d.shape)
-    if !shOk then .error .valueError
+    if !shapeAgrees shape (contiguous d0).shape then .error .valueError
     -- text data without `dtype=DataType.String`: numpy's U/O dtype has no HDF5 equivalent (h5py TypeError)
     else if dtype = none ∧ ddt = .string then .error .typeError
     else
       -- create_new: dataset of `shape` holding the fill value; then write_direct(data): dataset[:] = data
-      writeDirect ⟨dt, compr, ⟨d.shape, fun _ => dt.fill⟩⟩ d
+      writeDirect ⟨chooseDType dtype ddt, compr, ⟨(contiguous d0).shape, fun _ => (chooseDType dtype ddt).fill⟩⟩
+        (contiguous d0)
 
 def allNonneg : List Int → Bool
   | [] => true
